@@ -13,8 +13,15 @@ import (
 
 // RegisterIntrinsics installs the models of external functions. Each model
 // is an *assumed contract* of code outside /repo (DESIGN §4.3).
+var extraIntrinsics []func(m *Machine)
+
 func RegisterIntrinsics(m *Machine) {
 	I := m.Intr
+	defer func() {
+		for _, f := range extraIntrinsics {
+			f(m)
+		}
+	}()
 	I["fmt.Sprintf"] = func(p *Path, c *ssa.CallCommon, a []Val) Val {
 		return p.Sprintf(a[0].(Str), p.variadic(a[1]))
 	}
@@ -311,6 +318,26 @@ func (p *Path) toGo(v Val) (interface{}, bool) {
 			}
 			return fmt.Errorf("%s", s.S), true
 		}
+		if t, ok := x.V.(*smt.Term); ok {
+			if w, sg, isI := isInt(x.T); isI {
+				if sel := p.M.Prog.MethodSets.MethodSet(x.T).Lookup(nil, "String"); sel != nil {
+					k, okc := t.Uint64()
+					if !okc {
+						return nil, false
+					}
+					fn := p.M.Prog.MethodValue(sel)
+					sh := uint(64 - w)
+					recv := x.V
+					return hostInt{u: k, i: (int64(k) << sh) >> sh, signed: sg, str: func() string {
+						r := p.Call(fn, []Val{recv}, nil, nil)
+						if s, ok := r.(Str); ok && s.Concrete() {
+							return s.S
+						}
+						return "<symbolic>"
+					}}, true
+				}
+			}
+		}
 		if sel := p.M.Prog.MethodSets.MethodSet(x.T).Lookup(nil, "String"); sel != nil {
 			fn := p.M.Prog.MethodValue(sel)
 			if fn != nil && fn.Signature.Params().Len() == 0 {
@@ -383,4 +410,75 @@ func (p *Path) toGo(v Val) (interface{}, bool) {
 		return out, true
 	}
 	return fmt.Sprintf("<%T>", v), true
+}
+
+// hostInt is an integer of a named type that has a String method: %d-like
+// verbs print the number, %s and %v call the method (as package fmt does).
+type hostInt struct {
+	u      uint64
+	i      int64
+	signed bool
+	str    func() string
+}
+
+func (h hostInt) Format(f fmt.State, verb rune) {
+	switch verb {
+	case 's', 'v':
+		fmt.Fprint(f, h.str())
+	default:
+		format := "%" + string(verb)
+		if w, ok := f.Width(); ok {
+			pad := ""
+			if f.Flag('0') {
+				pad = "0"
+			}
+			if f.Flag('-') {
+				pad = "-"
+			}
+			format = fmt.Sprintf("%%%s%d%c", pad, w, verb)
+		}
+		if h.signed {
+			fmt.Fprintf(f, format, h.i)
+		} else {
+			fmt.Fprintf(f, format, h.u)
+		}
+	}
+}
+
+func init() {
+	extraIntrinsics = append(extraIntrinsics, func(m *Machine) {
+		// sort.Slice: insertion sort through the less closure. Assumed
+		// contract of the real function: the result is a permutation sorted
+		// with respect to less (which sort is used does not matter for a
+		// strict weak order; for other orders this is one admissible result).
+		m.Intr["sort.Slice"] = func(p *Path, c *ssa.CallCommon, a []Val) Val {
+			iv := a[0].(Iface)
+			sl, ok := iv.V.(Slice)
+			if !ok {
+				panic(unsupported("sort.Slice of non-slice"))
+			}
+			less := a[1].(*Closure)
+			n, ok := sl.Len.Uint64()
+			if !ok {
+				panic(unsupported("sort.Slice on a slice of symbolic length"))
+			}
+			off, _ := sl.Off.Uint64()
+			swap := func(i, j uint64) {
+				arr := p.Heap[sl.Obj].(*Arr)
+				e := append([]Val{}, arr.Elems...)
+				e[off+i], e[off+j] = e[off+j], e[off+i]
+				p.Heap[sl.Obj] = &Arr{Elems: e, ElemT: arr.ElemT}
+			}
+			for i := uint64(1); i < n; i++ {
+				for j := i; j > 0; j-- {
+					r := p.CallClosure(less, []Val{i64(int64(j)), i64(int64(j - 1))}, nil)
+					if !p.Decide(term(r)) {
+						break
+					}
+					swap(j, j-1)
+				}
+			}
+			return nil
+		}
+	})
 }
